@@ -204,6 +204,17 @@ func verifTempFile(name string) string {
 	return p
 }
 
+// verifTempFileWith: natively a temp file holding `content` (or absent when !exists).
+func verifTempFileWith(name string, content string, exists bool) string {
+	p := verifTempFile(name)
+	if exists {
+		os.WriteFile(p, []byte(content), 0644)
+	} else {
+		os.Remove(p)
+	}
+	return p
+}
+
 func verifReadTempFile(p string) (string, bool) {
 	b, err := os.ReadFile(p)
 	if err != nil {
